@@ -247,7 +247,7 @@ struct Lib {
     p.nframes = r.pick(nf);
     p.ordered = r.chance(0.5);
     if (r.chance(0.2)) { std::vector<double> bs = {0.0, 1.5, 2.0, (double)p.F - 0.5, (double)p.F + 1.0, (double)r.below((uint64_t)p.F + 1) + 0.5}; p.begin = r.pick(bs); }
-    p.eval_seed = r.next();
+    p.eval_seed = r.next() >> 1;
     p.eval_max = (int)r.below(4);
     p.pick_strategy(r);
     return p;
@@ -257,14 +257,14 @@ struct Lib {
     js::Value v = js::Value::obj();
     p.base_to_json(v);
     v.set("N", p.N).set("F", p.F).set("first_frame", p.first_frame).set("nframes", p.nframes).set("ordered", p.ordered)
-     .set("eval_seed", (long long)(p.eval_seed >> 1)).set("eval_max", p.eval_max).set("begin", p.begin);
+     .set("eval_seed", (long long)p.eval_seed).set("eval_max", p.eval_max).set("begin", p.begin);
     return v;
   }
   static Plan from_json(const js::Value &v) {
     Plan p;
     p.base_from_json(v);
     p.N = (int)v.num("N", 2); p.F = (int)v.num("F", 1); p.first_frame = (long)v.num("first_frame", -1); p.nframes = (long)v.num("nframes", -1);
-    p.ordered = v.at("ordered").b; p.eval_seed = (uint64_t)v.num("eval_seed", 0) << 1; p.eval_max = (int)v.num("eval_max", 0);
+    p.ordered = v.at("ordered").b; p.eval_seed = (uint64_t)v.num("eval_seed", 0); p.eval_max = (int)v.num("eval_max", 0);
     p.begin = v.has("begin") ? v.at("begin").d : -1;
     return p;
   }
